@@ -8,7 +8,7 @@
    [load] = the loader's classification at restart; [serves_all] = every document is served, from
    intact .docs/.meta or through a complete index over the document file it was built for. *)
 From Coq Require Import Lia.
-From C08 Require Import Model ModelGen CaseDefs ProofsA ProofsB ProofsC ProofsD ProofsFS ProofsFS2 ProofsGen ProofsH.
+From C08 Require Import Model ModelGen ModelPool CaseDefs ProofsA ProofsB ProofsC ProofsD ProofsFS ProofsFS2 ProofsGen ProofsH ProofsPool.
 
 (* Crash at any point of a seal (fault-free or with any write fault), the interrupted write torn
    at any length, then any power loss: the restarted store serves every document, and the directory
@@ -349,3 +349,64 @@ Example C08_gen_ids_tokens_run :
               mkTB 1 false 40000 10 1], ROk)
   /\ gen_token_table [(true, 2); (false, 0); (true, 1)]%N (oracle_of [1] None) = ([(0%nat, 2%N); (2%nat, 1%N)], RErr).
 Proof. vm_compute. repeat split. Qed.
+
+(* ================================================================================================
+   Extension (round 6): ownership of the pooled compression buffer while the index is written.
+   Objects (ModelPool.v): [pblk] = what disk.BlocksWriter.WriteBlock is asked to do with a block
+   (compress?, does zstd shrink it?); [pev] = one step of an interleaving: the sealer's next step
+   (Acquire, compress into the buffer, Seek, Write, the deferred Release) or a step of ANOTHER user of
+   the shared bytespool (acquire any free or a fresh buffer, write into a buffer it holds, release one);
+   [write_blocks blocks sched] = the state after the interleaving sched; [p_out] = what the Write calls
+   put into the index file; [expect_from 0 blocks] = for every block k the compression of its payload
+   ([CZ k]) or, uncompressed / incompressible, the payload itself ([CRaw k]).
+   ================================================================================================ *)
+
+(* For EVERY interleaving (any number of other pool users, any buffer handed out by the pool at any
+   Acquire, steps of the others between any two steps of the sealer): the bytes written for block k
+   are those of block k - at every moment what has been written is a prefix of the expected sequence,
+   and when the sealer has finished it is the whole sequence; it finishes as soon as it was given
+   [seal_steps blocks] steps.  Hence the index file that Seal fsyncs and renames is the one whose
+   sizes are the plan of the crash / fault theorems above, with every block intact. *)
+Theorem C08_block_bytes_private :
+  forall blocks sched,
+    let s := write_blocks blocks sched in
+    p_out s = firstn (length (p_out s)) (expect_from 0 blocks)
+    /\ (finished s = true -> p_out s = expect_from 0 blocks)
+    /\ (seal_steps blocks <= length (filter is_seal sched) -> finished s = true).
+Proof. exact block_bytes_private_full. Qed.
+Print Assumptions C08_block_bytes_private.
+
+(* the spec checker of the pool-pressure cases holds on the model's output for every finished run *)
+Theorem C08_spec_holds_on_model_pool :
+  forall blocks sched,
+    seal_steps blocks <= length (filter is_seal sched) ->
+    let s := write_blocks blocks sched in
+    case_agrees (CPool blocks sched (p_out s)) = true /\ case_spec_ok (CPool blocks sched (p_out s)) = true.
+Proof. exact spec_pool_model. Qed.
+Print Assumptions C08_spec_holds_on_model_pool.
+
+(* The seeded change C08-m12 (Release right after compression, before Seek and Write), kept as
+   [write_blocks_early]: one compressed block, the sealer acquires, compresses and releases; a second
+   goroutine acquires (the pool hands out the buffer just released) and writes its own bytes; the
+   sealer seeks and writes.  WriteBlock finishes normally and the index holds the other user's bytes.
+   The same schedule is harmless for the code as it is. *)
+Example C08_release_before_write_refuted :
+  exists blocks sched,
+    finished (write_blocks_early blocks sched) = true
+    /\ p_out (write_blocks_early blocks sched) <> expect_from 0 blocks
+    /\ length (p_out (write_blocks_early blocks sched)) = length blocks
+    /\ p_out (write_blocks blocks sched) = firstn (length (p_out (write_blocks blocks sched))) (expect_from 0 blocks).
+Proof. exact release_before_write_refuted. Qed.
+
+(* non-vacuity: three blocks (info block uncompressed, a compressible one, an incompressible one), a
+   pool user that takes, fills and releases buffers at the Seek of every block and holds one across
+   blocks; the sealer finishes and the index holds CRaw 0, CZ 1, CRaw 2 *)
+Example C08_pool_pressure_runs :
+  let blocks := [mkPB false false; mkPB true true; mkPB true false] in
+  let sched := [ESeal 0; EAcq 1 0; EFill 0; ESeal 0;
+                ESeal 0; ESeal 0; ESeal 0; EAcq 2 0; EFill 1; EFill 0; ERel 1; ESeal 0; ESeal 0;
+                ESeal 0; ESeal 0; ESeal 0; EAcq 2 0; EFill 1; ERel 0; ERel 0; ESeal 0; ESeal 0] in
+  (seal_steps blocks <= length (filter is_seal sched))%nat
+  /\ p_out (write_blocks blocks sched) = [CRaw 0; CZ 1; CRaw 2]
+  /\ p_out (write_blocks_early blocks sched) = [CRaw 0; CPoison 2; CRaw 2].
+Proof. vm_compute. repeat split. repeat constructor. Qed.
